@@ -30,11 +30,14 @@ func (c KeyCase) RandSeed() uint64 { return c.Seed }
 
 func genKeyCase(t *rapid.T) KeyCase {
 	var c KeyCase
-	maxLogN := 5
+	minLogN, maxLogN := 4, 5
 	if h.Thorough() {
 		maxLogN = 7
+		if rapid.IntRange(0, 15).Draw(t, "largeN") == 0 {
+			minLogN, maxLogN = 8, 9
+		}
 	}
-	c.Params = genParams(t, 4, maxLogN, true, nil)
+	c.Params = genParams(t, minLogN, maxLogN, true, nil)
 	c.Key = genKey(t, c.Params, true)
 	c.Key.Compressed = rapid.IntRange(0, 2).Draw(t, "compressed2") != 0 // mostly compressed here
 	c.Kind = []string{"evk", "rlk", "gal"}[rapid.IntRange(0, 2).Draw(t, "kind")]
@@ -99,7 +102,7 @@ func runKeyCase(c KeyCase, rec *h.Rec) error {
 			if rlk != nil {
 				g.evk = &rlk.EvaluationKey
 			}
-			g.sIn, g.sOu = ringMul(sB, sB, s.CI), sB
+			g.sIn, g.sOu = smallMul(sB, sB, s.CI), sB
 		default:
 			var gk *rlwe.GaloisKey
 			skip, err = guardKeygen(s, k, rec, func() { gk = kgen.GenGaloisKeyNew(galEl, sk, evkp) })
@@ -219,7 +222,7 @@ func runKeyCase(c KeyCase, rec *h.Rec) error {
 				}
 			}
 			tpart := h.CRT(limbs, all)
-			e := h.VecCenter(h.VecSub(h.VecAdd(b, ringMul(a, g1.sOu, s.CI)), tpart), QP)
+			e := h.VecCenter(h.VecSub(h.VecAdd(b, mulQ(a, g1.sOu, all, s.CI)), tpart), QP)
 			if nrm := h.InfNorm(e); nrm.Cmp(maxErr) > 0 {
 				maxErr = nrm
 			}
